@@ -752,6 +752,33 @@ func (env *Env) call(x *SExpr) *SVal {
 	case "fresh":
 		v := arg(0)
 		return &SVal{T: c.Cmp("bvugt", env.objOf(v), env.alloc0), Typ: boolT}
+	case "unchanged":
+		// unchanged("heap name", ...): the named heaps (modifies-clause syntax) have their old() content
+		if env.old == nil {
+			sfail("unchanged() needs an old state")
+		}
+		var names []string
+		for _, a := range x.Args {
+			if a.Kind != "str" {
+				sfail("unchanged(\"heap\", ...)")
+			}
+			names = append(names, a.Name)
+		}
+		hs, err := e.P.expandHeaps(names)
+		if err != nil {
+			sfail("unchanged: %v", err)
+		}
+		var eqs []*smt.Term
+		for _, h := range hs {
+			e.ensureHeapKnown(h)
+			eqs = append(eqs, c.Eq(e.heap(env.st, h, e.hsorts[h]), e.heap(env.old, h, e.hsorts[h])))
+		}
+		return &SVal{T: c.And(eqs...), Typ: boolT}
+	case "strof":
+		// strof(b): the string value of a byte slice (same abstraction as the Go conversion string(b))
+		v := arg(0)
+		arr := e.byteRegion(env.st, e.slObj(v.T))
+		return &SVal{T: c.App("str_of_bytes", smt.BV(StrW), arr, e.slOff(v.T), e.slLen(v.T)), Typ: types.Typ[types.String]}
 	case "loopfresh":
 		// loopfresh(x): x was allocated during the loop (only inside loop invariants)
 		if env.loopAlloc == nil {
